@@ -288,8 +288,9 @@ Definition spec_case (c : case) : bool :=
          an internal sub-query, and only when the packer took the message *)
       xorb wrote fell && (if wrote then direct && negb internal && handled else true)
   | CaseName s buflen off cm compress ok off1 written added =>
-      (* an uncompressed name occupies its presentation length + 1 octets, a compressed one
-         no more; nothing is written past the buffer *)
+      (* an uncompressed name occupies its DECODED length + 1 octets (every escape counted as
+         the one octet it stands for; = presentation length + 1 for an escape-free name), a
+         compressed one no more; nothing is written past the buffer *)
       (* (an empty name writes nothing and returns the offset it was given, wherever that is) *)
       if ok then ((off1 <=? buflen) || match s with [] => true | _ => false end) && (len written =? off1 - off) &&
                  (off1 <=? off + N.of_nat (name_len s)) &&
